@@ -9,38 +9,70 @@ GROUP = "ratio"
 LEAN_PROPS = "Dashu.Props.C18"
 LEAN_AUDIT = "Dashu.Audit.C18"
 # compositions with other groups' proved files, kept apart from the property's own theorems
-GEN_PROPS = ["Dashu.Props.C18Link"]
-GEN_AUDIT = ["Dashu.Audit.C18Link"]
+GEN_PROPS = ["Dashu.Props.C18Link", "Dashu.Props.C18Gen", "Dashu.Props.C18Kernels"]
+GEN_AUDIT = ["Dashu.Audit.C18Link", "Dashu.Audit.C18Gen", "Dashu.Audit.C18Kernels"]
 USES_GEN = True
 JOBS = 12
 
 REFINED = ["Repr::simplest_in (continued-fraction descent: soundness, simultaneous minimality, termination)",
            "RBig::simplest_in (signs, order, equal end points, final reduce)",
            "RBig::farey_neighbors (determinant 1, bracket, bounds, termination)",
-           "RBig::next_up / next_down (all limits >= 1, incl. the 1/limit^2 nudge)", "RBig::nearest",
+           "RBig::next_up / next_down (all limits >= 1, incl. the 1/limit^2 nudge and the early return for an integer with "
+           "limit 1, mirrored: next_up_down_limit_one_int)", "RBig::nearest",
            "RBig::is_simpler_than (regenerated text = the documented lexicographic order, is_simpler_than_lexicographic)",
-           "pickSimplest (tail of simplest_from_f32/f64/float): optimal over the interior and the allowed end points",
+           "pickSimplest (tail of simplest_from_f32/f64/float): optimal over the interior and the allowed end points; equal to the "
+           "regenerated end-point selection of simplest_from_float (Props/C18Gen.pick_is_skeleton)",
            "RBig::simplest_from_f32 / simplest_from_f64: result converts back to exactly the float under builder-conv's IEEE "
            "round-to-nearest-even specification (ieeeRoundRat) and is the simplest fraction that does (Props/C18Link: simplest_from_f32_exact, "
            "simplest_from_f64_exact; rounding_set_is_preimage: the interval is the exact preimage for every IEEE binary format)",
            "RBig::simplest_from_float (FBig), required behaviour: every mode is a window (mode_is_window), the rounding set of an "
            "FBig value for every base/mode/precision (fbig_rounding_set_exact), the model's table is that set, and the result rounds "
-           "back and is the simplest fraction that does (simplest_from_fbig_exact)"]
-FRONTIER = ["the correspondence model <-> code of simplest_from_float (FBig) is by six named deviation switches (the code's "
-            "ErrorBounds is defective: recorded finding); the theorems are about the required behaviour (Quirks.none)",
-            "RoundsTo (correct rounding to p digits: binade t, quantum b^(t-p), builder-float's roundInt) is builder-float's "
-            "specRound with ulpExp spelled out as t - p; the identity ulpExp = t - p (ilogQ) is not proved here",
-            "Repr::cmp / PartialOrd for Repr (rational/src/cmp.rs) is taken at its contract (C05)",
-            "dashu-int kernels (div_rem, gcd, mul) at their contracts (C01, C02, C12)",
-            "FBig special inputs (infinite -> None, unlimited precision -> the number itself): observed by tests only, no theorem"]
+           "back and is the simplest fraction that does (simplest_from_fbig_exact)",
+           "RoundsTo = builder-float's specRound (C03): ilogQ is floor(log_B), ulpExp = binade - precision "
+           "(Props/C18Link: ulpExp_is_binade_minus_precision, rounds_to_is_spec_round, simplest_from_fbig_spec_round)",
+           "RBig::simplest_from_float entry point (rbigSimplestFromFloat, executed by the driver for every case): None iff the float "
+           "is infinite, zero -> 0, unlimited precision -> the number itself (simplest_from_fbig_none_iff_infinite, "
+           "simplest_from_fbig_unlimited); equal to the regenerated early-return skeleton (Props/C18Gen.entry_is_skeleton)",
+           "float/src/round.rs ErrorBounds (all six modes) and the half-ulp formula, Tie A: regenerated decision tables "
+           "(Gen/ErrorBounds.lean, vlib/extract_errorbounds.py) proved equal to the code side of the model for every base, mode, sign, "
+           "parity (Props/C18Gen: code_rounding_set_is_error_bounds, error_bounds_unlimited, code_unlimited_is_error_bounds)",
+           "impl_simplest_from_float! (simplest_from_f32/f64), Tie A: below / center / above / shifts / parity test regenerated from "
+           "the macro body and proved equal to the model's roundingInterval and parity rule for every format "
+           "(Props/C18Gen: rounding_interval_is_macro, min_exp_f32_f64, ends_allowed_is_mantissa_parity)",
+           "IBig::div_rem of the descent = C02's mirrored and proved division, gcd of every reduce = C12's proved gcd, for every word "
+           "size (Props/C18Kernels: descent_div_rem_is_proved_kernel, reduce_gcd_is_proved_kernel, reduce_over_proved_gcd)",
+           "where the code's error bounds ARE the rounding set (even base, significand not a power of the base, HalfEven parity "
+           "condition): code_set_is_rounding_set_on_class, code_optimal_on_class — the complement of the recorded finding as a theorem",
+           "Repr::cmp used by the model (cmpQ) = the regenerated repr_cmp of rational/src/cmp.rs (Props/C18Link.cmpQ_is_regenerated_repr_cmp, "
+           "composition with Props/GenRatCmp and C14's ratReprCmp_spec)"]
+FRONTIER = ["the correspondence model <-> code of simplest_from_float (FBig) is by FOUR named deviation switches (uniformUlp, ceilHalf, "
+            "oddIncl, panicUnlimited: the code's ErrorBounds is defective, recorded finding; each switch is tied to the regenerated "
+            "source table by Props/C18Gen); the optimality theorems are about the required behaviour (Quirks.none)",
+            "an FBig whose significand has more digits than its context precision (constructible with FBig::from_repr only) is "
+            "outside the statement: no number rounds to it at that precision (model: malformed input, never generated)",
+            "precisions / exponents beyond a few thousand digits are not driven: RBig materialises B^|exponent| and the model "
+            "B^(precision - digits), memory proportional to the argument; at precision >= 2^63 the code itself breaks (FBig::ulp casts the precision to isize, "
+            "float/src/fbig.rs:402; `precision + 1` overflows at usize::MAX, dashu_float.rs:191): reported, not driven",
+            "next_up / next_down / an inexact nearest with limits beyond ~3000 are not driven: farey_neighbors is linear in limit "
+            "(theorems cover every limit); nearest with multi-word limits is driven on its Exact arm",
+            "IBig multiplication / addition / shifts inside the descent and the interval construction are Lean Int arithmetic "
+            "(contract of C01; C04Link.ring_contracts_are_proved_kernels is the composition for the same operations); div_rem and gcd "
+            "are linked by theorem (Props/C18Kernels)"]
 RULE = ("simplest_in: end points from {small fractions, neighbours in a Farey sequence, convergents of a random continued "
-        "fraction (very narrow intervals, large denominators), integers, zero, huge/tiny} in both orders, equal, negative, "
+        "fraction (very narrow intervals, large denominators), integers, zero, huge/tiny, numerators/denominators of EVERY bit "
+        "length 1..200 and 2^j, 2^j+-1 at word/double-word boundaries} in both orders, equal, negative, "
         "sign-straddling, zero/integer end points; is_simpler_than: pairs agreeing/differing in denominator, |numerator|, "
         "sign in every combination; next_up/next_down/nearest: limits 1..300 (linear-time walk) against x with denominator "
-        "<, =, > limit, integers, negatives, exact midpoints of neighbours (ties); simplest_from_f32/f64: bit patterns around "
+        "<, =, > limit, integers, negatives, exact midpoints of neighbours (ties), integers with limit 1 (early return), limit 0 "
+        "(panic); nearest with limits 2^31..2^200 (one to four words, 2^32+-k, 2^64+-k) on the Exact arm; "
+        "simplest_from_f32/f64: EVERY exponent field of f32 and (thorough) of f64 with mantissas 0, 1, max, max-1; mantissas "
+        "2^j, 2^j+-1 for every j at random exponents; bit patterns around "
         "every power of two, subnormals, least/greatest finite, even/odd mantissas, exponents on both sides of the "
-        "mantissa width, quotients p/q of small integers, NaN/inf/zeros; simplest_from_float: 6 modes x bases {2,3,10,16} x "
-        "significands {B^k, B^k-1, B^k+1, random, 0} x precision {digits, digits+1.., 0 = unlimited} x exponents x signs, plus +inf/-inf of every mode/base (None). Non-trivial := not an integer-only or equal-end-point "
+        "mantissa width, quotients p/q of small integers, NaN/inf/zeros; simplest_from_float: 6 modes x bases "
+        "{2,3,4,5,7,8,10,16,36,100,255} x significands {B^k, B^k-1, B^k+1, ~B^k/2, random, 0} for k of every length 1..40 "
+        "(thorough 1..150) x precision {digits, digits+1, +2, +62..66, +127..129, up to +300 (thorough +1500), 0 = unlimited} x "
+        "exponents {0, +-1, around -digits, -precision, +-64, +-128, +-300 (thorough +-2000)} x signs, plus +inf/-inf of every "
+        "mode/base with context precision 0 .. usize::MAX (None). Non-trivial := not an integer-only or equal-end-point "
         "case; distinct := distinct case lines.")
 EXPLANATION = ("Theorems (all integers, all limits): simplest_in returns a reduced fraction strictly inside the interval whose "
                "numerator magnitude and denominator are both minimal among all fractions strictly inside (Stern-Brocot "
@@ -49,7 +81,7 @@ EXPLANATION = ("Theorems (all integers, all limits): simplest_in returns a reduc
                "element for every limit >= 1; nearest picks the closer with the sign of result - x, Exact iff the denominator "
                "fits; is_simpler_than (text regenerated from the source on every run) is exactly the documented "
                "lexicographic order.")
-ASSUMPTIONS = ["Repr::cmp compares values (C05)", "dashu-int div_rem/gcd/mul meet their contracts (C01, C02, C12)"]
+ASSUMPTIONS = ["dashu-int mul/add/shift meet their contracts (C01); div_rem and gcd are linked to C02/C12 by theorem"]
 THEOREMS = []
 READY = True
 
@@ -72,6 +104,13 @@ def rnd_frac(rng, tier):
         return Fraction(rng.randrange(-5, 6))
     if r < 0.7:
         return Fraction(0)
+    if r < 0.78:
+        # (E2) numerator / denominator of EVERY bit length, and the boundary values 2^j, 2^j +- 1 (word and
+        # double-word boundaries of the dashu-int kernels underneath included: j = 63, 64, 65, 127, 128, 129)
+        def mag():
+            j = rng.choice([rng.randrange(1, 200), 31, 32, 63, 64, 65, 127, 128, 129])
+            return max(1, rng.choice([(1 << j) - 1, 1 << j, (1 << j) + 1, rng.getrandbits(j) | (1 << (j - 1))]))
+        return Fraction(signed(rng, mag()), mag())
     # convergent of a random continued fraction
     k = rng.randrange(2, 60 if tier == "quick" else 400)
     h0, h1, k0, k1 = 1, rng.randrange(0, 4), 0, 1
@@ -115,8 +154,48 @@ def float_bits(rng, w):
         else:
             b = struct.unpack("<Q", struct.pack("<d", f))[0]
         return sign | b
+    if r < 0.90:
+        # (E2) mantissa 2^j - 1, 2^j, 2^j + 1 for EVERY j < mb at a uniformly random exponent (subnormals included)
+        j = rng.randrange(0, mb + 1)
+        m = rng.choice([(1 << j) - 1, 1 << j, (1 << j) + 1]) & ((1 << mb) - 1)
+        return sign | (rng.randrange(0, emax) << mb) | m
     e = rng.randrange(1, emax)
     return sign | (e << mb) | rng.getrandbits(mb)
+
+
+def float_sweep(rng, tier):
+    """(E1/E2) EVERY exponent field value of f32 (quick: a stride of f64's, thorough: all 2048) with the mantissas
+    0 (power of two: the half-width gap below), 1, all-ones (carry into the next binade); both parities"""
+    for e in range(0, 256):
+        for m in (0, 1, (1 << 23) - 1, (1 << 23) - 2):
+            yield Case("s.fromf32", ["x:%08x" % ((rng.getrandbits(1) << 31) | (e << 23) | m)])
+    step = 1 if tier != "quick" else 16
+    off = rng.randrange(step)
+    for e in list(range(off, 2048, step)) + [0, 1, 2, 2045, 2046, 2047, 1023, 1022, 1024, 1075, 1076, 1074]:
+        for m in (0, 1, (1 << 52) - 1, (1 << 52) - 2):
+            yield Case("s.fromf64", ["x:%016x" % ((rng.getrandbits(1) << 63) | (e << 52) | m)])
+
+
+BIG_LIMITS = [1 << 31, (1 << 32) - 1, 1 << 32, (1 << 32) + 1, 1 << 63, (1 << 64) - 1, 1 << 64, (1 << 64) + 1,
+              (1 << 127) + 1, 1 << 128, (1 << 128) + 1, 1 << 200]
+
+
+def gen_big_limit(rng, tier):
+    """(E1) `nearest` with a limit far beyond what the linear Farey walk can serve: only the `Exact` arm
+    (denominator <= limit) is reachable cheaply — limits of one, two, three and four words, denominators of every bit
+    length below them, the boundary denominator = limit exactly.  (next_up / next_down / an inexact nearest with such a
+    limit need time proportional to the limit: not drivable.)"""
+    lim = rng.choice(BIG_LIMITS) + rng.choice([0, 0, rng.randrange(0, 130)])
+    r = rng.random()
+    if r < 0.3:
+        d = lim
+    elif r < 0.5:
+        d = max(1, lim - rng.randrange(1, 130))
+    else:
+        d = max(1, rng.getrandbits(rng.randrange(1, lim.bit_length())))
+    n = signed(rng, rng.getrandbits(rng.randrange(1, 260)))
+    x = Fraction(n, d)
+    return Case("s.nearest", [q(x.numerator, x.denominator), "u:%x" % lim])
 
 
 def generate(rng, tier):
@@ -190,9 +269,21 @@ def generate(rng, tier):
             yield Case("s.fromf32", ["x:%08x" % float_bits(rng, 32)])
         else:
             yield Case("s.fromf64", ["x:%016x" % float_bits(rng, 64)])
+    for c in float_sweep(rng, tier):
+        yield c
+    # ---- (E1) nearest with multi-word limits (Exact arm), next_up/next_down of an integer with limit 1 (early return)
+    for _ in range(120 if quick else 3000):
+        yield gen_big_limit(rng, tier)
+    for _ in range(40 if quick else 400):
+        x = signed(rng, rng.choice([0, 1, 2, rng.getrandbits(rng.randrange(1, 140))]))
+        yield Case(rng.choice(["s.nextup", "s.nextdown", "s.nearest"]), [q(x, 1), "u:1"])
     # ---- simplest_from_float (FBig): modes x bases {2, 3, 10, 16} x significands around powers of the base
     for _ in range(900 if quick else 20000):
         yield gen_fbig(rng, tier)
+    # ---- the same over all driven bases, significands B^k, B^k +- 1 of EVERY length, large precisions / exponents,
+    #      infinities carried by a context of any precision
+    for _ in range(900 if quick else 20000):
+        yield gen_fbig2(rng, tier)
 
 
 MODES = ["Zero", "Away", "Up", "Down", "HalfAway", "HalfEven"]
@@ -247,6 +338,49 @@ def gen_fbig(rng, tier):
     return Case("s.fromfloat", [mode, "d:%d" % b, hx(s), "d:%d" % e, "d:%d" % p])
 
 
+ALL_BASES = [2, 3, 4, 5, 7, 8, 10, 16, 36, 100, 255]
+
+
+def gen_fbig2(rng, tier):
+    """(E1/E2) all driven bases (odd bases 3, 5, 7, 255: the half-ulp ceiling; powers of two; 36, 100), significands
+    B^k - 1, B^k, B^k + 1, B^k/2-ish ties for k of EVERY length up to kmax, precision = digits + {0, 1, 2, 62..66, 127..129,
+    a few hundred} and 0 (unlimited), exponents 0, +-1, around -digits, and large (+-64, +-300, thorough +-2000: the
+    value B^|exp| is materialised, so not more), infinities with every precision"""
+    quick = tier == "quick"
+    b = rng.choice(ALL_BASES)
+    mode = rng.choice(MODES)
+    if rng.random() < 0.03:
+        return Case("s.fromfloat", [mode, "d:%d" % b, rng.choice(["inf", "-inf"]), "d:0",
+                                    "d:%d" % rng.choice([0, 1, 2, 5, 64, 1000, (1 << 32) + 1, (1 << 63) - 1, (1 << 64) - 1])])
+    kmax = 40 if quick else 150
+    k = rng.randrange(1, kmax + 1)
+    r = rng.random()
+    if r < 0.2:
+        s = b ** k
+    elif r < 0.4:
+        s = b ** k - 1
+    elif r < 0.55:
+        s = b ** k + 1
+    elif r < 0.65:
+        s = (b ** k) // 2 + rng.choice([-1, 0, 1])             # around half of the next power
+    elif r < 0.75:
+        s = rng.choice([1, 2, b - 1, b + 1, b // 2, b // 2 + 1])
+    else:
+        s = rng.randrange(1, b ** k)
+    s = max(s, 1)
+    while s % b == 0:
+        s //= b
+    n = ndigits(s, b)
+    p = n + rng.choice([0, 0, 0, 1, 1, 2, 5, 62, 63, 64, 65, 66, 127, 128, 129, rng.randrange(0, 300 if quick else 1500)])
+    if rng.random() < 0.08:
+        p = 0
+    big = [64, -64, 65, -65, 128, -128, 300, -300] + ([] if quick else [1000, -1000, 2000, -2000])
+    e = rng.choice([0, -1, 1, -n, -n + 1, -n - 1, -p, 1 - p, rng.randrange(-30, 31), rng.choice(big)])
+    if rng.random() < 0.5:
+        s = -s
+    return Case("s.fromfloat", [mode, "d:%d" % b, hx(s), "d:%d" % e, "d:%d" % p])
+
+
 LEVEL_TEXT = ("Machine-checked Lean 4 theorems, for all integers and all limits >= 1 (no bounds): RBig::simplest_in returns a "
               "reduced fraction strictly inside the interval whose denominator AND numerator magnitude are minimal among all "
               "fractions strictly inside (any end-point order/sign, equal, zero and integer end points), with termination; "
@@ -259,9 +393,13 @@ LEVEL_TEXT = ("Machine-checked Lean 4 theorems, for all integers and all limits 
               "the interval being the exact preimage of the float; simplest_from_float (FBig): for every base, mode and precision the "
               "rounding set of a float is proved (builder-float's mode definitions) and the required result is proved to round back "
               "and be the simplest such fraction; the code deviates through ErrorBounds (recorded finding), and the driver reproduces "
-              "the code exactly from six named deviation switches of that model, so every disagreement is attributed.")
+              "the code exactly from four named deviation switches of that model, so every disagreement is attributed; the code side "
+              "of the model (error_bounds of all six modes, the half-ulp formula, the early returns and the end-point selection of "
+              "simplest_from_float) is proved equal to tables regenerated from the source on every run (Props/C18Gen), the rounding "
+              "relation is proved to be builder-float's specRound (Props/C18Link), and the special inputs (infinite -> None, zero, "
+              "unlimited precision -> the number itself) are theorems about the function the driver executes.")
 LEVEL_NOTE = ("Trusted: Lean kernel; axioms propext/Classical.choice/Quot.sound; correspondence harness and generators (sampling); "
-              "Repr::cmp and dashu-int kernels at their contracts. Repaired in /repo after being found here (fixed: lines in "
+              "dashu-int ring kernels at their contracts (div_rem / gcd linked to C02 / C12 by theorem). Repaired in /repo after being found here (fixed: lines in "
               "known_findings.jsonl): is_simpler_than conjunction, simplest_in zero end point, next_up/next_down limit = 1 debug "
               "assertion, simplest_from_f32/f64 interval for large floats. Still recorded as a finding: simplest_from_float (FBig) "
               "through float/src/round.rs ErrorBounds (full ulp below a power of the base, ceil half ulp for odd bases, ulp() of an "
